@@ -226,6 +226,10 @@ theorem step_callUnlock (s : St) (g : Nat) (k : Key) (h : s.pcs[g]? = some (.hol
     Inv { s with pcs := s.pcs.set g (.sendRel k) } :=
   ⟨fun k0 => InvK_pcs_same s g _ _ h k0 rfl rfl (hi.1 k0), ptr_upd s g _ (by intro i k h; cases h) hi.2⟩
 
+theorem step_callUnlockSpur (s : St) (g : Nat) (k : Key) (h : s.pcs[g]? = some .idle) (hi : Inv s) :
+    Inv { s with pcs := s.pcs.set g (.sendRelSpur k) } :=
+  ⟨fun k0 => InvK_pcs_same s g _ _ h k0 rfl rfl (hi.1 k0), ptr_upd s g _ (by intro i k h; cases h) hi.2⟩
+
 theorem step_gGetItem (s : St) (g : Nat) (k : Key) (h : s.pcs[g]? = some (.needItem k)) (hi : Inv s) :
     Inv { (getItem s k).2 with pcs := s.pcs.set g (.recvTok (getItem s k).1 k) } := by
   have hi1 := inv_getItem s k hi
@@ -263,6 +267,24 @@ theorem step_rdvRel (s : St) (g : Nat) (k : Key) (h : s.pcs[g]? = some (.sendRel
   unfold InvK at hk
   rw [hm] at hk
   simp only [isReg, isHold] at e1 e2
+  unfold reg hold at *
+  generalize List.countP (isReg k0) s.pcs = r at *
+  generalize List.countP (isHold k0) s.pcs = h0 at *
+  generalize L s k0 = l at *
+  inv_arith k0 k
+
+theorem step_rdvRelSpur (s : St) (g : Nat) (k : Key) (h : s.pcs[g]? = some (.sendRelSpur k)) (hm : s.mgr = .idle)
+    (hfree : reg s k = 0) (hi : Inv s) : Inv { s with pcs := s.pcs.set g .idle, mgr := .rel k } := by
+  refine ⟨fun k0 => ?_, ptr_upd { s with mgr := .rel k } g _ (by intro i k h; cases h) hi.2⟩
+  apply InvK_pcs_step s g _ _ h _ k0
+  intro r' h' e1 e2 hle'
+  have hk := hi.1 k0
+  have hle := hold_le_reg s.pcs k0
+  unfold InvK at hk
+  rw [hm] at hk
+  simp only [isReg, isHold] at e1 e2
+  have hfree' : k0 = k → reg s k0 = 0 := fun hh => by rw [hh]; exact hfree
+  clear hfree
   unfold reg hold at *
   generalize List.countP (isReg k0) s.pcs = r at *
   generalize List.countP (isHold k0) s.pcs = h0 at *
